@@ -29,3 +29,12 @@ check("C20", "exploration",
       "runtime monitor: expectations computed from the generated directory; archive/zip re-read of .zip responses; barrier-released concurrent first requests compared with the sequential expectation; Go race detector on the in-process server",
       "Generated module directories (case-escaped paths, /vN, +incompatible, pseudo and non-canonical versions, .txt/.txtar/dir layouts, nested and dot files) are served by the real Server; .info/.mod/.zip/list of everything stored and 404 probes for everything not stored are requested first by 16-64 goroutines at once and then sequentially.",
       "Trusted: x/tools txtar parser (what 'stored' means for archive layouts), archive/zip, net/http. Commit-hash requests are asserted only where exactly one stored version of the module has a hash. Race detector sees only the schedules that happened.")
+
+check("C05", "exploration",
+      "runtime monitor: shadow model of the store + self-consistency gates (sha256, size, not-found error kind, no panic) and payload-ownership check on every lookup of op/damage histories",
+      "Histories of 30-200 operations over 6 ids and 8 size classes interleave Put/PutBytes/Get/GetBytes/GetFile/OutputFile with on-disk damage of index and output files (truncate, extend, flip, delete, replace, directory, garbage), 15 structured index-entry mutations and random bytes, and repairing Puts; every lookup result of the real cache is judged against the model and the gates.",
+      "Trusted: the shadow model in checks/c05 (an entry is 'intact' iff nothing touched its index entry or its output file since the last successful Put). Crafted index entries never point to another id's existing output. Runs as root (permission faults are not part of this check).")
+check("C13", "exploration",
+      "runtime monitor: independent keep/remove/don't-care classification of every file from the recorded store/lookup history, evaluated after each real Trim call (virtual clock via the verif hook VerifSetNow; second workload on the real clock with mtime-simulated ages)",
+      "Histories with boundary-heavy time steps (1 ns around 1 h, 5 d and 5 d + 1 h), 19 trim.txt variants and 400-day-old non-entry files; after each Trim every file is classified from its last store/lookup and compared with what is on disk; whether the trim ran is decided from trim.txt.",
+      "Trusted: the classification in checks/c13; the hook only replaces the cache's clock (the package's own tests do the same). The zero-length output is created with the OS clock and is therefore exercised only in the real-clock workload.")
